@@ -22,6 +22,11 @@ pub enum Src {
     /// path relative to the repository root (compiled with its real path so `use`/`include` resolve)
     File(String),
     Text(String),
+    /// a project directory materialised under the scratch directory: `main.mmm` plus sibling
+    /// module files (`mod voice` / `include("voice.mmm")` resolve relative to main.mmm). The
+    /// directory name is derived from the contents, so two projects with the same file names
+    /// and different contents live in different directories.
+    Project { main: String, files: Vec<(String, String)> },
 }
 impl Src {
     pub fn load(&self) -> (String, Option<PathBuf>) {
@@ -31,12 +36,40 @@ impl Src {
                 (std::fs::read_to_string(&full).unwrap_or_default(), Some(PathBuf::from(full)))
             }
             Src::Text(t) => (t.clone(), None),
+            Src::Project { main, files } => {
+                let dir = crate::sut::scratch_dir().join("proj").join(self.label().replace(':', "_"));
+                let _ = std::fs::create_dir_all(&dir);
+                let put = |name: &str, text: &str| {
+                    let dst = dir.join(name);
+                    if std::fs::read_to_string(&dst).map(|t| t == text).unwrap_or(false) {
+                        return;
+                    }
+                    let tmp = dir.join(format!(".{}.{}.tmp", name, std::process::id()));
+                    let _ = std::fs::write(&tmp, text);
+                    let _ = std::fs::rename(&tmp, &dst);
+                };
+                for (n, t) in files {
+                    put(n, t);
+                }
+                put("main.mmm", main);
+                (main.clone(), Some(dir.join("main.mmm")))
+            }
         }
     }
     pub fn label(&self) -> String {
         match self {
             Src::File(r) => r.rsplit('/').next().unwrap_or(r).to_string(),
             Src::Text(t) => format!("text:{:08x}", fnv(t.as_bytes()) as u32),
+            Src::Project { main, files } => {
+                let mut all = main.clone();
+                for (n, t) in files {
+                    all.push_str("\u{0}");
+                    all.push_str(n);
+                    all.push_str("\u{0}");
+                    all.push_str(t);
+                }
+                format!("proj:{:016x}", fnv(all.as_bytes()))
+            }
         }
     }
 }
@@ -543,11 +576,36 @@ pub fn gen_nameprog(rng: &mut Rng) -> String {
     }
 }
 
+/// Two-file projects that share file and item names with other generated projects: the only
+/// thing that tells them apart is the directory they live in.
+pub fn gen_project(rng: &mut Rng) -> Src {
+    let m = *rng.pick(&["voice", "osc", "fx"]);
+    let f = *rng.pick(&["tone", "proc"]);
+    let k = rng.range(1, 9) as f64 * 0.5;
+    let body = match rng.below(4) {
+        0 => format!("    x * {k:?}\n"),
+        1 => format!("    let fb = mem(x)\n    x * {k:?} + fb\n"),
+        2 => format!("    self + x * {k:?}\n"),
+        _ => format!("    let fb = mem(x)\n    x * {k:?} + fb + delay(4.0, x, 2.0)\n"),
+    };
+    let modsrc = format!("pub fn {f}(x){{\n{body}}}\n");
+    let arg = rng.range(1, 4) as f64;
+    let main = if rng.chance(1, 3) {
+        format!("include(\"{m}.mmm\")\nfn dsp(){{\n    {f}({arg:?})\n}}\n")
+    } else if rng.chance(1, 2) {
+        format!("mod {m}\nuse {m}::{f}\nfn dsp(){{\n    {f}({arg:?})\n}}\n")
+    } else {
+        format!("mod {m}\n\nfn dsp(){{\n    {m}::{f}({arg:?})\n}}\n")
+    };
+    Src::Project { main, files: vec![(format!("{m}.mmm"), modsrc)] }
+}
+
 pub fn gen_c15(seed: u64, corpus: &[String]) -> DetRun {
     let root = Rng::new(seed);
     let mut r_cfg = root.sub("swarm");
     let mut r = root.sub("workload");
-    let target = match r_cfg.below(12) {
+    let target = match r_cfg.below(14) {
+        12..=13 => gen_project(&mut r),
         10..=11 => Src::Text(gen_nameprog(&mut r)),
         0..=3 => Src::Text(gen_idprog(&mut r)),
         4..=5 => {
@@ -565,6 +623,7 @@ pub fn gen_c15(seed: u64, corpus: &[String]) -> DetRun {
     let mut history = vec![];
     for _ in 0..hist_len {
         let src = match r.below(10) {
+            _ if matches!(target, Src::Project { .. }) && r.chance(2, 3) => gen_project(&mut r),
             0..=2 => Src::Text(permuting_history(&mut r, &tsrc)),
             3 => Src::Text(gen_idprog(&mut r)),
             4 => Src::Text(gen_nameprog(&mut r)),
